@@ -365,6 +365,8 @@ def shards(tier):
     per = 900 if tier == "quick" else 40000
     out = [{"kind": "first", "n": per, "idx": i} for i in range(12)]
     out += [{"kind": "stack", "n": per, "idx": i} for i in range(4)]
+    runs = 30000 if tier == "quick" else 1500000
+    out += [{"kind": "atheris", "runs": runs, "idx": i} for i in range(1 if tier == "quick" else 6)]
     return out
 
 
@@ -372,6 +374,17 @@ def run_shard(spec, seed):
     from hypothesis import strategies as st
 
     res = ShardResult()
+    if spec["kind"] == "atheris":
+        from vlib import fuzz
+
+        seeds = (pickle.dumps([1, "a", {2: (3.5, b"x")}], 2), pickle.dumps({"k": {1, 2}}, 4) + b"N.",
+                 b"(lp0\nI1\naVtext\np1\na.", b"cos\nsystem\n(S'x'\ntR.trailing")  # fmt: skip
+        fuzz.run_atheris(
+            res, f"c06-{spec['idx']}", os.path.join(os.path.dirname(__file__), "prog_fuzz.py"), ["C06"],
+            spec["runs"], seed, seeds=seeds if spec["idx"] % 2 == 0 else (),
+            nt=lambda d: end_of_first(d) is not None,
+        )
+        return res
     scratch = os.path.join(env.SCRATCH, f"c06-{os.getpid()}")
     os.makedirs(scratch, exist_ok=True)
     firsts = _first_strategy()
